@@ -66,6 +66,18 @@ def run(ctx):
     scens += [group_relen_scenario(rng) for _ in range(ng)]
     ctx.notes["scenarios_group_trigger_across_length_change"] = ng
     sc.validate(ctx, scens, PREFIXES)
+    # data drops (frame numbers that jump between blocks, flagged by the source or not): crash-freedom of record cutting
+    tp = ctx.path("emdrop.ndjson")
+    rc, out = vlib.go_test(ctx, "", sc.HARNESS, "TestVerifEMDrop$", env={"VERIF_OUT": tp}, timeout=1800)
+    if rc != 0:
+        raise vlib.MachineryError("edge-multi data-drop driver failed:\n" + out[-3000:])
+    dviols, _ = vlib.validate_trace(ctx, "StreamTrace", "StreamTrace.cfg", tp, timeout=900)
+    dev = vlib.read_ndjson(tp)
+    for v in dviols:
+        if v["predicate"].startswith("C01_"):
+            e = dev[v["line"] - 1]
+            vlib.report_violation(ctx, {"predicate": v["predicate"], "event": "EMDrop", "where": (e["panic"] or "").split(":")[0]},
+                                  {"emdrop": {k: e[k] for k in ("npre", "nsamp", "mode", "zero", "drops", "panic")}})
     return vlib.finish(ctx, LEVEL, RULE,
                        ["block time stamps are mutually consistent (first sample time = epoch + frame * period)",
                         "edge-multi scenarios are shared with C08 (its generator); C08 additionally compares one-block and partitioned runs", "frame numbers up to 2^40 + stream length"])
